@@ -523,13 +523,39 @@ func runRangeDisproofNeedsKnown(rr *RuleRun) {
 		return ok && opOperands(info, call) != nil && fromV(call)
 	}
 	n := 0
-	inspectNoLit(ts.Body, func(nd ast.Node) bool {
+	inspectNoLit(fd.Body, func(nd ast.Node) bool {
 		ret, ok := nd.(*ast.ReturnStmt)
 		if !ok || len(ret.Results) != 1 || !isPkgVar(info, ret.Results[0], "cty", "False") {
 			return true
 		}
 		n++
 		key := fmt.Sprintf("%s.ValueRange.Includes/return False#%d", pkg, n)
+		// outside the refinement switch: the nullness and type exits, which are definite for the reasons they test
+		if !(ts.Pos() <= ret.Pos() && ret.End() <= ts.End()) {
+			definite := cf.HoldsAt(ret, func(cond ast.Expr, truth bool) bool {
+				if truth && methodCond(info, cond, v, "IsNull", "IsKnown", "IsWhollyKnown") {
+					return true // a value that IS null is known to be null
+				}
+				if call, ok := ast.Unparen(cond).(*ast.CallExpr); ok && truth && isCall(info, call, "cty.definitelyNotNull") && len(call.Args) == 1 && objOf(info, call.Args[0]) == v {
+					return true
+				}
+				// the type does not conform
+				found := false
+				ast.Inspect(cond, func(m ast.Node) bool {
+					if cl, ok := m.(*ast.CallExpr); ok && isCall(info, cl, "cty.Type.TestConformance", "cty.Type.Equals") {
+						found = true
+					}
+					return true
+				})
+				return found
+			})
+			if definite {
+				rr.OK(key, ret.Pos(), "a definite exit: the value is null / definitely not null / of another type")
+			} else {
+				rr.Violation(key, ret.Pos(), fmt.Sprintf("a definite False is returned here on a path that only established that %s.IsNull() is false (or nothing about %s at all): IsNull is false for every unknown value, including one that may still turn out to be null, so a range that admits only null answers 'not included' for an unknown that may be null", v.Name(), v.Name()))
+			}
+			return true
+		}
 		known := cf.HoldsAt(ret, func(cond ast.Expr, truth bool) bool {
 			return truth && methodCond(info, cond, v, "IsKnown", "IsWhollyKnown")
 		})
@@ -2485,4 +2511,725 @@ func runDynamicTestSeesThroughMarks(rr *RuleRun) {
 			return true
 		})
 	})
+}
+
+// ---------------------------------------------------------------------------
+
+func init() {
+	register(&Rule{
+		ID: "C06.normalise-before-store", Prop: "C06", Also: []string{"C07", "C02"}, Floor: 3, Controls: 0,
+		Doc: "in package cty a name taken from the caller (a parameter, or an element or key of a slice or map parameter) is stored as a key of a map that becomes the attribute table or optional-attribute set of an object type, or the payload of an object or map value, only after it went through NormalizeString: the lookups normalise the name they are given (C06.normalise-before-lookup), so an entry stored under the caller's spelling is never found — an optional marking that AttributeOptional, Equals and the JSON form do not see",
+		Run: runNormaliseBeforeStore,
+	})
+}
+
+func runNormaliseBeforeStore(rr *RuleRun) {
+	c := rr.Ctx
+	pkg := "cty"
+	info := c.Info(pkg)
+	for _, fd := range c.SortedDecls(pkg) {
+		if fd.Body == nil {
+			continue
+		}
+		// maps that end up in a typeObject literal or as the payload of a Value literal
+		sinks := map[types.Object]string{}
+		inspectNoLit(fd.Body, func(n ast.Node) bool {
+			cl, ok := n.(*ast.CompositeLit)
+			if !ok {
+				return true
+			}
+			t := info.TypeOf(cl)
+			if t == nil {
+				return true
+			}
+			switch namedTypeNoPtr(t) {
+			case "cty.typeObject":
+				for _, el := range cl.Elts {
+					if kv, ok := el.(*ast.KeyValueExpr); ok {
+						if o := objOf(info, kv.Value); o != nil {
+							sinks[o] = "the " + exprStr(kv.Key) + " table of an object type"
+						}
+					}
+				}
+			case "cty.Value":
+				for _, el := range cl.Elts {
+					if kv, ok := el.(*ast.KeyValueExpr); ok && exprStr(kv.Key) == "v" {
+						if o := objOf(info, kv.Value); o != nil {
+							if m, ok := o.Type().Underlying().(*types.Map); ok {
+								if b, ok := m.Key().Underlying().(*types.Basic); ok && b.Kind() == types.String {
+									sinks[o] = "the payload of an object or map value"
+								}
+							}
+						}
+					}
+				}
+			}
+			return true
+		})
+		if len(sinks) == 0 {
+			continue
+		}
+		params := map[types.Object]bool{}
+		for _, f := range fd.Type.Params.List {
+			for _, nm := range f.Names {
+				params[info.Defs[nm]] = true
+			}
+		}
+		g := c.CFG(fd.Body, info)
+		isNormCall := func(e ast.Expr) bool {
+			call, ok := ast.Unparen(e).(*ast.CallExpr)
+			return ok && isCall(info, call, "cty.NormalizeString", "cty/ctystrings.Normalize")
+		}
+		n := 0
+		inspectNoLit(fd.Body, func(nd ast.Node) bool {
+			as, ok := nd.(*ast.AssignStmt)
+			if !ok {
+				return true
+			}
+			for _, l := range as.Lhs {
+				ix, ok := l.(*ast.IndexExpr)
+				if !ok {
+					continue
+				}
+				what, isSink := sinks[objOf(info, ix.X)]
+				if !isSink {
+					continue
+				}
+				n++
+				key := fmt.Sprintf("%s.%s/%s[%s]#%d", pkg, declName(fd), exprStr(ix.X), trunc(exprStr(ix.Index), 25), n)
+				if isNormCall(ix.Index) {
+					rr.OK(key, as.Pos(), "stored under the normalised name")
+					continue
+				}
+				ko := objOf(info, ix.Index)
+				if ko == nil {
+					rr.Assumed(key, as.Pos(), "the key is not a plain variable: no verdict")
+					continue
+				}
+				// normalised on the way: K = NormalizeString(…) / K := NormalizeString(…) dominating the store
+				normalised := false
+				inspectNoLit(fd.Body, func(m ast.Node) bool {
+					a2, ok := m.(*ast.AssignStmt)
+					if !ok || a2 == as {
+						return true
+					}
+					for i, l2 := range a2.Lhs {
+						if objOf(info, l2) == ko && i < len(a2.Rhs) && isNormCall(a2.Rhs[i]) && g.Dominates(a2, as) {
+							normalised = true
+						}
+					}
+					return true
+				})
+				if normalised {
+					rr.OK(key, as.Pos(), "the key was normalised before the store")
+					continue
+				}
+				// where does the key come from: the caller's data?
+				fromCaller := params[ko]
+				inspectNoLit(fd.Body, func(m ast.Node) bool {
+					rs, ok := m.(*ast.RangeStmt)
+					if !ok {
+						return true
+					}
+					if (rs.Key != nil && objOf(info, rs.Key) == ko) || (rs.Value != nil && objOf(info, rs.Value) == ko) {
+						if params[objOf(info, rs.X)] {
+							fromCaller = true
+						}
+					}
+					return true
+				})
+				if fromCaller {
+					rr.Violation(key, as.Pos(), fmt.Sprintf("%s is stored as a key of %s in the spelling the caller gave it — it was not passed through NormalizeString on the way: every lookup normalises the name it is given, so an entry stored under a non-normalised spelling (\"he\\u0301llo\") is never found again", ko.Name(), what))
+				} else {
+					rr.Assumed(key, as.Pos(), "the key does not come straight from the caller's data (it is taken from a table that is already normalised, or computed): no verdict")
+				}
+			}
+			return true
+		})
+	}
+}
+
+// ---------------------------------------------------------------------------
+
+func init() {
+	register(&Rule{
+		ID: "C04.null-member-replacement-keeps-marks", Prop: "C04", Also: []string{"C08"}, Floor: 3, Controls: 0,
+		Doc: "in the conversion closures of package convert, where a member of the value being converted (an element, an attribute — not the closure's own argument, which the wrapper has unmarked) is found null and a fresh cty.NullVal is produced in its place, the fresh null is given the member's marks (…WithSameMarks(member) / WithMarks): a type carries no marks, so a null built from a type alone — the member's own or the target's — drops the marks of a marked null member, and they never reach the result",
+		Run: runNullMemberReplacementKeepsMarks,
+	})
+}
+
+func runNullMemberReplacementKeepsMarks(rr *RuleRun) {
+	c := rr.Ctx
+	pkg := "cty/convert"
+	info := c.Info(pkg)
+	for _, fd := range c.SortedDecls(pkg) {
+		if fd.Body == nil {
+			continue
+		}
+		ast.Inspect(fd.Body, func(n ast.Node) bool {
+			fl, ok := n.(*ast.FuncLit)
+			if !ok {
+				return true
+			}
+			params := map[types.Object]bool{}
+			for _, f := range fl.Type.Params.List {
+				for _, nm := range f.Names {
+					params[info.Defs[nm]] = true
+				}
+			}
+			k := 0
+			inspectNoLit(fl.Body, func(m ast.Node) bool {
+				ifs, ok := m.(*ast.IfStmt)
+				if !ok {
+					return true
+				}
+				call, ok := ast.Unparen(ifs.Cond).(*ast.CallExpr)
+				if !ok || !isCall(info, call, "cty.Value.IsNull") {
+					return true
+				}
+				x := objOf(info, call.Fun.(*ast.SelectorExpr).X)
+				if x == nil || params[x] {
+					return true
+				}
+				inspectNoLit(ifs.Body, func(q ast.Node) bool {
+					nv, ok := q.(*ast.CallExpr)
+					if !ok || !isCall(info, nv, "cty.NullVal") {
+						return true
+					}
+					k++
+					key := fmt.Sprintf("%s.%s$closure/null %s#%d", pkg, declName(fd), x.Name(), k)
+					// is this NullVal(...) the receiver of WithSameMarks(x) / WithMarks(...)?
+					wrapped := false
+					if se, ok := c.Parent(nv).(*ast.SelectorExpr); ok && (se.Sel.Name == "WithSameMarks" || se.Sel.Name == "WithMarks") {
+						if outer, ok := c.Parent(se).(*ast.CallExpr); ok {
+							if se.Sel.Name == "WithMarks" {
+								wrapped = true
+							}
+							for _, a := range outer.Args {
+								if objOf(info, a) == x {
+									wrapped = true
+								}
+							}
+						}
+					}
+					if wrapped {
+						rr.OK(key, nv.Pos(), "the fresh null carries the marks of the member it replaces")
+					} else {
+						rr.Violation(key, nv.Pos(), fmt.Sprintf("the member %s was found null and %s is produced in its place without the member's marks (no WithSameMarks(%s) / WithMarks around it): a marked null element or attribute comes out of the conversion unmarked, and for a set target its mark never reaches the set", x.Name(), trunc(exprStr(nv), 50), x.Name()))
+					}
+					return true
+				})
+				return true
+			})
+			return true
+		})
+	}
+}
+
+// ---------------------------------------------------------------------------
+
+func init() {
+	register(&Rule{
+		ID: "C01.unbounded-side-admits-infinity", Prop: "C01", Also: []string{"C05"}, Floor: 2, Controls: 0,
+		Doc: "ValueRange.NumberLowerBound and NumberUpperBound, when they answer with the package's own infinity because the range has no (known) bound on that side, say the bound is inclusive: 'no bound' excludes no number, the infinity included — an exclusive infinity makes Includes answer False for the infinity and Equals declare an unknown number different from +Inf / -Inf, which it may well be",
+		Run: runUnboundedSideAdmitsInfinity,
+	})
+}
+
+func runUnboundedSideAdmitsInfinity(rr *RuleRun) {
+	c := rr.Ctx
+	pkg := "cty"
+	info := c.Info(pkg)
+	for _, name := range []string{"ValueRange.NumberLowerBound", "ValueRange.NumberUpperBound"} {
+		fd := rr.MustDecl(pkg, name)
+		if fd == nil {
+			continue
+		}
+		n := 0
+		inspectNoLit(fd.Body, func(nd ast.Node) bool {
+			ret, ok := nd.(*ast.ReturnStmt)
+			if !ok || len(ret.Results) != 2 || !isPkgVar(info, ret.Results[0], "cty", "NegativeInfinity", "PositiveInfinity") {
+				return true
+			}
+			n++
+			key := fmt.Sprintf("%s.%s/return %s#%d", pkg, name, exprStr(ret.Results[0]), n)
+			if tv, ok := info.Types[ret.Results[1]]; ok && tv.Value != nil && tv.Value.String() == "true" {
+				rr.OK(key, ret.Pos(), "the stand-in infinity is reported as an inclusive bound")
+			} else {
+				rr.Violation(key, ret.Pos(), fmt.Sprintf("%s answers with %s for a side that has no bound but does not say the bound is inclusive (%s): the range then excludes the infinity itself, although nothing was ever said about it — UnknownVal(Number).RefineNotNull().Equals(%s) is False", name, exprStr(ret.Results[0]), exprStr(ret.Results[1]), exprStr(ret.Results[0])))
+			}
+			return true
+		})
+	}
+}
+
+// ---------------------------------------------------------------------------
+// Round 10, from the `b` series
+
+func init() {
+	register(&Rule{
+		ID: "C18.signedness-accessor-matches-kind", Prop: "C18", Floor: 2, Controls: 0,
+		Doc: "in gocty a case clause that lists unsigned reflect kinds (Uint, Uint8 … Uint64) reads or writes the Go value through the unsigned accessors (Uint / SetUint / NumberUIntVal) and one that lists signed kinds through the signed ones: an unsigned value read through Int() — after a Convert to int64, say — wraps around for values of 2^63 and more, and the number that reaches cty is negative",
+		Run: runSignednessAccessorMatchesKind,
+	})
+	register(&Rule{
+		ID: "C17.type-decoder-assigns-before-success", Prop: "C17", Also: []string{"C07", "C15"}, Floor: 2, Controls: 0,
+		Doc: "every successful return (nil error) of (*cty.Type).UnmarshalJSON is dominated by an assignment to the receiver: a path that returns nil without having decoded a type into *t leaves the zero Type — NilType — in place, and when that happens for a nested type description (the element type of a list, an attribute type) the outer type is built around it and later operations dereference nil",
+		Run: runTypeDecoderAssignsBeforeSuccess,
+	})
+	register(&Rule{
+		ID: "C06.member-type-reference-adopts", Prop: "C06", Also: []string{"C17", "C15", "C16"}, Floor: 6, Controls: 0,
+		Doc: "in the collection constructors and their Can…Val predicates the type every member is compared with is not fixed to the first member's type: the loop itself replaces the reference while it is still the dynamic placeholder (the first member may be a null or unknown of the dynamic type, and then later members must still agree with each other) — a reference read once from vals[0] approves [dynamic, string, number], which the constructor then panics on",
+		Run: runMemberTypeReferenceAdopts,
+	})
+	register(&Rule{
+		ID: "C09.looked-up-conversion-nil-checked", Prop: "C09", Floor: 6, Controls: 0,
+		Doc: "in the unification functions a conversion looked up for an input (conversions[i] = GetConversion…(input type, result type), directly or through a helper of the package) is tested for nil before the function goes on, with an exit or a change of candidate on nil: GetConversion answers nil when no conversion exists, and a nil left in the slot means 'this input already has the result type' to the caller — an input that cannot be converted is then handed back unconverted",
+		Run: runLookedUpConversionNilChecked,
+	})
+}
+
+func runSignednessAccessorMatchesKind(rr *RuleRun) {
+	c := rr.Ctx
+	pkg := "cty/gocty"
+	info := c.Info(pkg)
+	unsignedKinds := map[string]bool{"Uint": true, "Uint8": true, "Uint16": true, "Uint32": true, "Uint64": true, "Uintptr": true}
+	signedKinds := map[string]bool{"Int": true, "Int8": true, "Int16": true, "Int32": true, "Int64": true}
+	n := 0
+	for _, fd := range c.SortedDecls(pkg) {
+		if fd.Body == nil {
+			continue
+		}
+		inspectNoLit(fd.Body, func(nd ast.Node) bool {
+			cc, ok := nd.(*ast.CaseClause)
+			if !ok {
+				return true
+			}
+			hasU, hasS := false, false
+			for _, e := range cc.List {
+				if se, ok := ast.Unparen(e).(*ast.SelectorExpr); ok {
+					if k, ok := info.Uses[se.Sel].(*types.Const); ok && k.Pkg() != nil && k.Pkg().Path() == "reflect" {
+						if unsignedKinds[se.Sel.Name] {
+							hasU = true
+						}
+						if signedKinds[se.Sel.Name] {
+							hasS = true
+						}
+					}
+				}
+			}
+			if !hasU && !hasS {
+				return true
+			}
+			n++
+			key := fmt.Sprintf("%s.%s/case %s…#%d", pkg, declName(fd), trunc(exprStr(cc.List[0]), 20), n)
+			usesS, usesU := token.NoPos, token.NoPos
+			for _, st := range cc.Body {
+				ast.Inspect(st, func(m ast.Node) bool {
+					call, ok := m.(*ast.CallExpr)
+					if !ok {
+						return true
+					}
+					switch funcKey(callee(info, call)) {
+					case "reflect.Value.Int", "reflect.Value.SetInt", "cty.NumberIntVal":
+						if usesS == token.NoPos {
+							usesS = call.Pos()
+						}
+					case "reflect.Value.Uint", "reflect.Value.SetUint", "cty.NumberUIntVal":
+						if usesU == token.NoPos {
+							usesU = call.Pos()
+						}
+					}
+					return true
+				})
+			}
+			switch {
+			case hasU && usesS != token.NoPos && usesU == token.NoPos:
+				rr.Violation(key, usesS, "this case lists unsigned reflect kinds but moves the value through the signed accessors (Int / SetInt / NumberIntVal): a uint64 or uint of 2^63 or more wraps around to a negative number on the way, while the opposite direction still expects the full unsigned range")
+			case hasS && !hasU && usesU != token.NoPos && usesS == token.NoPos:
+				rr.Violation(key, usesU, "this case lists signed reflect kinds but moves the value through the unsigned accessors (Uint / SetUint / NumberUIntVal): a negative value wraps around to a huge positive number")
+			default:
+				rr.OK(key, cc.Pos(), "the accessors agree with the signedness of the kinds listed (or the case delegates)")
+			}
+			return true
+		})
+	}
+}
+
+func runTypeDecoderAssignsBeforeSuccess(rr *RuleRun) {
+	c := rr.Ctx
+	pkg := "cty"
+	info := c.Info(pkg)
+	fd := rr.MustDecl(pkg, "Type.UnmarshalJSON")
+	if fd == nil {
+		return
+	}
+	recv := recvObj(info, fd)
+	g := c.CFG(fd.Body, info)
+	assignsRecv := func(n ast.Node) bool {
+		as, ok := n.(*ast.AssignStmt)
+		if !ok {
+			return false
+		}
+		for _, l := range as.Lhs {
+			if st, ok := ast.Unparen(l).(*ast.StarExpr); ok && objOf(info, st.X) == recv {
+				return true
+			}
+		}
+		return false
+	}
+	// must-analysis: on every path to the node an assignment to *t has happened
+	cf := c.CondFactsX(fd.Body, info, func(n ast.Node) []Effect {
+		if assignsRecv(n) {
+			return []Effect{{Assert: &Fact{"assigned", "recv"}}}
+		}
+		return nil
+	}, nil)
+	n := 0
+	for _, ret := range g.Returns() {
+		if len(ret.Results) != 1 || !isNilIdent(info, ret.Results[0]) {
+			continue
+		}
+		n++
+		key := fmt.Sprintf("%s.Type.UnmarshalJSON/return nil#%d", pkg, n)
+		if cf.HasFact(ret, "assigned", "recv") {
+			rr.OK(key, ret.Pos(), "a type was stored in the receiver on every path to this return")
+		} else {
+			rr.Violation(key, ret.Pos(), "this successful return can be reached without anything having been stored in *t: the receiver keeps the zero Type (NilType), and a type description nested in a list, tuple or object is then built around NilType — decoding a value against it dereferences nil")
+		}
+	}
+}
+
+func runMemberTypeReferenceAdopts(rr *RuleRun) {
+	c := rr.Ctx
+	pkg := "cty"
+	info := c.Info(pkg)
+	for _, name := range []string{"ListVal", "CanListVal", "MapVal", "CanMapVal", "SetVal", "CanSetVal"} {
+		fd := c.Decl(pkg, name)
+		if fd == nil || fd.Body == nil {
+			continue
+		}
+		key := pkg + "." + name + "/member-type reference"
+		// the reference: a local of type cty.Type that is the receiver or argument of Equals inside a loop
+		var ref types.Object
+		var loop ast.Stmt
+		inspectNoLit(fd.Body, func(n ast.Node) bool {
+			var body *ast.BlockStmt
+			switch x := n.(type) {
+			case *ast.RangeStmt:
+				body = x.Body
+			case *ast.ForStmt:
+				body = x.Body
+			default:
+				return true
+			}
+			inspectNoLit(body, func(m ast.Node) bool {
+				call, ok := m.(*ast.CallExpr)
+				if !ok || !isCall(info, call, "cty.Type.Equals") || ref != nil {
+					return true
+				}
+				for _, e := range []ast.Expr{call.Fun.(*ast.SelectorExpr).X, call.Args[0]} {
+					if o := objOf(info, e); o != nil && isCtyType(o.Type()) {
+						if _, isVar := o.(*types.Var); isVar && o.Parent() != nil && o.Pkg() != nil && o.Parent() != o.Pkg().Scope() {
+							ref, loop = o, n.(ast.Stmt)
+						}
+					}
+				}
+				return true
+			})
+			return true
+		})
+		if ref == nil {
+			rr.Assumed(key, fd.Pos(), "the member-type test is delegated to a helper or written in a form this rule does not follow: no verdict")
+			continue
+		}
+		assignedInLoop := false
+		inspectNoLit(loop, func(m ast.Node) bool {
+			if as, ok := m.(*ast.AssignStmt); ok {
+				for _, l := range as.Lhs {
+					if objOf(info, l) == ref && as.Tok == token.ASSIGN {
+						assignedInLoop = true
+					}
+				}
+			}
+			return true
+		})
+		if assignedInLoop {
+			rr.OK(key, loop.Pos(), "the reference type is replaced inside the loop (adopted from the first member that is not dynamically typed)")
+			continue
+		}
+		// fixed before the loop: from the first member?
+		_, idx, rhs := findDefine(info, fd.Body, ref)
+		fromFirst := false
+		if rhs != nil && idx < len(rhs) {
+			ast.Inspect(rhs[idx], func(m ast.Node) bool {
+				if ix, ok := m.(*ast.IndexExpr); ok {
+					if v, ok := constInt(info, ix.Index); ok && v == 0 {
+						fromFirst = true
+					}
+				}
+				return true
+			})
+		}
+		if fromFirst {
+			rr.Violation(key, loop.Pos(), fmt.Sprintf("%s compares every member with %s, which is read once from the first member and never replaced: when the first member is a null or unknown of the dynamic type every later member is let through, whatever their types — [dynamic, string, number] is approved although its members disagree, and the constructor that adopts the first concrete type panics on it", name, ref.Name()))
+		} else {
+			rr.Assumed(key, loop.Pos(), "the reference type is fixed before the loop but not read from the first member: chosen in a way this rule does not follow; no verdict")
+		}
+	}
+}
+
+func runLookedUpConversionNilChecked(rr *RuleRun) {
+	c := rr.Ctx
+	pkg := "cty/convert"
+	info := c.Info(pkg)
+	for _, fd := range c.SortedDecls(pkg) {
+		if fd.Body == nil || c.FileOf(fd.Pos()) != "unify.go" {
+			continue
+		}
+		n := 0
+		// statement lists, to look at what follows an assignment
+		var lists [][]ast.Stmt
+		inspectNoLit(fd.Body, func(nd ast.Node) bool {
+			switch x := nd.(type) {
+			case *ast.BlockStmt:
+				lists = append(lists, x.List)
+			case *ast.CaseClause:
+				lists = append(lists, x.Body)
+			}
+			return true
+		})
+		isLookup := func(st ast.Stmt) (ast.Expr, bool) {
+			as, ok := st.(*ast.AssignStmt)
+			if !ok || len(as.Lhs) != 1 || len(as.Rhs) != 1 {
+				return nil, false
+			}
+			if _, ok := as.Lhs[0].(*ast.IndexExpr); !ok {
+				return nil, false
+			}
+			call, ok := as.Rhs[0].(*ast.CallExpr)
+			if !ok {
+				return nil, false
+			}
+			if t := info.TypeOf(call); t == nil || !strings.HasSuffix(namedType(t), "convert.Conversion") {
+				return nil, false
+			}
+			f := callee(info, call)
+			if f == nil || f.Pkg() == nil || shortPkg(f.Pkg()) != pkg {
+				return nil, false
+			}
+			return as.Lhs[0], true
+		}
+		inPair := map[ast.Stmt]bool{}
+		for _, list := range lists {
+			for _, st := range list {
+				if ifs, ok := st.(*ast.IfStmt); ok && ifs.Else != nil && len(ifs.Body.List) == 1 {
+					if _, ok := isLookup(ifs.Body.List[0]); ok {
+						if eb, ok := ifs.Else.(*ast.BlockStmt); ok && len(eb.List) == 1 {
+							if _, ok := isLookup(eb.List[0]); ok {
+								inPair[ifs.Body.List[0]], inPair[eb.List[0]] = true, true
+							}
+						}
+					}
+				}
+			}
+		}
+		for _, list := range lists {
+			for i, st := range list {
+				if inPair[st] {
+					continue
+				}
+				var slot ast.Expr
+				var at ast.Stmt
+				if s, ok := isLookup(st); ok {
+					slot, at = s, st
+				} else if ifs, ok := st.(*ast.IfStmt); ok && ifs.Else != nil && len(ifs.Body.List) == 1 {
+					// if unsafe { slot = GetConversionUnsafe(…) } else { slot = GetConversion(…) }
+					if s, ok := isLookup(ifs.Body.List[0]); ok {
+						if eb, ok := ifs.Else.(*ast.BlockStmt); ok && len(eb.List) == 1 {
+							if s2, ok := isLookup(eb.List[0]); ok && exprStr(s) == exprStr(s2) {
+								slot, at = s, st
+							}
+						}
+					}
+				}
+				if slot == nil {
+					continue
+				}
+				n++
+				key := fmt.Sprintf("%s.%s/%s = lookup#%d", pkg, declName(fd), trunc(exprStr(slot), 25), n)
+				checked := false
+				for _, nx := range list[i+1:] {
+					ifs, ok := nx.(*ast.IfStmt)
+					if !ok {
+						continue
+					}
+					be, ok := ast.Unparen(ifs.Cond).(*ast.BinaryExpr)
+					if ok && be.Op == token.EQL && isNilIdent(info, be.Y) && exprStr(be.X) == exprStr(slot) && len(ifs.Body.List) > 0 {
+						switch last := ifs.Body.List[len(ifs.Body.List)-1].(type) {
+						case *ast.ReturnStmt:
+							checked = true
+						case *ast.BranchStmt:
+							if last.Tok == token.CONTINUE && last.Label != nil {
+								checked = true
+							}
+						}
+					}
+					break
+				}
+				if checked {
+					rr.OK(key, at.Pos(), "a missing conversion makes the function give up or try the next candidate")
+				} else {
+					rr.Violation(key, at.Pos(), fmt.Sprintf("the conversion looked up into %s is not tested for nil before the function goes on: when no conversion exists the slot stays nil, which tells the caller 'this input needs no conversion' — Unify then succeeds and hands back an input that is not of the unified type and cannot be converted to it", trunc(exprStr(slot), 30)))
+				}
+			}
+		}
+	}
+}
+
+// ---------------------------------------------------------------------------
+
+func init() {
+	register(&Rule{
+		ID: "C19.path-hash-ignores-index-keys", Prop: "C19", Also: []string{"C03"}, Floor: 1, Controls: 0,
+		Doc: "the hash of a path looks at an index step's key at most through its type: path equivalence decides keys with Value.Equals, under which numbers of different precision or spelling (0 and -0, 2^62 as an int and as a float64) are equal, so anything computed from the key's content — its decimal text, its Go representation — can send two equivalent paths to different buckets, and Has, Add, Remove and the set algebra then miss members",
+		Run: runPathHashIgnoresIndexKeys,
+	})
+	register(&Rule{
+		ID: "C12.helper-needs-known-argument", Prop: "C12", Also: []string{"C11", "C13"}, Floor: 1, Controls: 0,
+		Doc: "a helper of the standard functions that iterates its cty.Value parameter (ElementIterator, AsValueSlice, LengthInt …) with no test of the parameter's own IsKnown() — at most a test that its length is known, which an unknown tuple or an unknown collection refined to an exact length also passes — is handed a member of another value only where that member was established known at the call (IsKnown / IsWhollyKnown decided true on the way): the recursion into a nested member that is an unknown tuple otherwise panics inside the helper",
+		Run: runHelperNeedsKnownArgument,
+	})
+}
+
+func runPathHashIgnoresIndexKeys(rr *RuleRun) {
+	c := rr.Ctx
+	pkg := "cty"
+	info := c.Info(pkg)
+	fd := rr.MustDecl(pkg, "pathSetRules.Hash")
+	if fd == nil {
+		return
+	}
+	key := pkg + ".pathSetRules.Hash/index keys"
+	var bad ast.Node
+	ast.Inspect(fd.Body, func(n ast.Node) bool {
+		se, ok := n.(*ast.SelectorExpr)
+		if !ok || se.Sel.Name != "Key" || bad != nil {
+			return true
+		}
+		if t := info.TypeOf(se.X); t == nil || namedTypeNoPtr(t) != "cty.IndexStep" {
+			return true
+		}
+		// allowed: step.Key.Type()
+		if p, ok := c.Parent(se).(*ast.SelectorExpr); ok && p.Sel.Name == "Type" {
+			return true
+		}
+		bad = se
+		return true
+	})
+	if bad == nil {
+		rr.OK(key, fd.Pos(), "the hash does not depend on the content of index keys")
+	} else {
+		rr.Violation(key, bad.Pos(), "the hash of a path is computed from the content of an index step's key: keys are compared with Value.Equals, which calls numbers equal across precisions and spellings, so two equivalent paths can land in different buckets and the path set stops finding its own members")
+	}
+}
+
+func runHelperNeedsKnownArgument(rr *RuleRun) {
+	c := rr.Ctx
+	pkg := "cty/function/stdlib"
+	info := c.Info(pkg)
+	// helpers whose Value parameter is iterated without an IsKnown test of its own
+	type helper struct {
+		fd  *ast.FuncDecl
+		idx int
+	}
+	var helpers []helper
+	for _, fd := range c.SortedDecls(pkg) {
+		if fd.Body == nil || fd.Recv != nil {
+			continue
+		}
+		pi := 0
+		for _, f := range fd.Type.Params.List {
+			for _, nm := range f.Names {
+				p := info.Defs[nm]
+				if p != nil && isCtyValue(p.Type()) {
+					// the parameter, or its shallowly unmarked rebinding of the same name
+					same := func(o types.Object) bool { return o != nil && (o == p || (o.Name() == p.Name() && isCtyValue(o.Type()))) }
+					iterates, testsKnown := false, false
+					inspectNoLit(fd.Body, func(m ast.Node) bool {
+						call, ok := m.(*ast.CallExpr)
+						if !ok {
+							return true
+						}
+						se, ok := call.Fun.(*ast.SelectorExpr)
+						if !ok || !same(objOf(info, se.X)) {
+							return true
+						}
+						k := funcKey(callee(info, call))
+						if req, ok := valueREQ[k]; ok && req.Known && k != "cty.Value.True" && k != "cty.Value.False" {
+							iterates = true
+						}
+						if k == "cty.Value.IsKnown" || k == "cty.Value.IsWhollyKnown" {
+							testsKnown = true
+						}
+						return true
+					})
+					if iterates && !testsKnown {
+						helpers = append(helpers, helper{fd, pi})
+					}
+				}
+				pi++
+			}
+		}
+	}
+	n := 0
+	for _, h := range helpers {
+		eachFuncBody(c, []string{pkg}, func(_ string, cfd *ast.FuncDecl, body *ast.BlockStmt) {
+			if body == nil {
+				return
+			}
+			var cf *CondFacts
+			inspectNoLit(body, func(m ast.Node) bool {
+				call, ok := m.(*ast.CallExpr)
+				if !ok || funcDeclKey2(info, call) != declName(h.fd) || h.idx >= len(call.Args) {
+					return true
+				}
+				arg := objOf(info, call.Args[h.idx])
+				if arg == nil {
+					return true
+				}
+				// only members taken out of another value: defined from an iterator's Element() or a range over AsValueSlice
+				isMember := false
+				if _, _, rhs := findDefine(info, body, arg); rhs != nil && len(rhs) == 1 {
+					if cl, ok := ast.Unparen(rhs[0]).(*ast.CallExpr); ok && isCall(info, cl, "cty.ElementIterator.Element") {
+						isMember = true
+					}
+				}
+				inspectNoLit(body, func(q ast.Node) bool {
+					if rs, ok := q.(*ast.RangeStmt); ok && rs.Value != nil && objOf(info, rs.Value) == arg {
+						isMember = true
+					}
+					return true
+				})
+				if !isMember {
+					return true
+				}
+				n++
+				key := fmt.Sprintf("%s.%s/%s(%s)#%d", pkg, declName(cfd), declName(h.fd), arg.Name(), n)
+				if cf == nil {
+					cf = c.CondFacts(body, info, nil)
+				}
+				known := cf.HoldsAt(call, func(cond ast.Expr, truth bool) bool {
+					return truth && methodCond(info, cond, arg, "IsKnown", "IsWhollyKnown")
+				})
+				if known {
+					rr.OK(key, call.Pos(), "the member was established known before it is handed to the helper")
+				} else {
+					rr.Violation(key, call.Pos(), fmt.Sprintf("%s is a member taken out of another value and is handed to %s, which iterates its argument without testing IsKnown() itself, on a path where %s.IsKnown() was not established: an unknown tuple member (its length is known from its type) or an unknown collection refined to an exact length passes the helper's length test and panics in the iteration — a call that succeeds for the concrete value fails for the unknown one", arg.Name(), declName(h.fd), arg.Name()))
+				}
+				return true
+			})
+		})
+	}
 }
